@@ -1,9 +1,11 @@
 """C11: square roots and quadratic-residue tests.  Case generator + property metadata.
 
 Case layout (see coq/C11/Run.v): a0 = [cfg_id]; a1 = [deg, p(, nr)]; a2 = prime-field SQRT_PRECOMP;
-a3 = Fp3 constants; a4.. operands.  a1..a3 come from props/C11/params.json, which `pre` regenerates
+a3 = Fp3 constants (prime fields: [GENERATOR]); a4.. operands.  a1..a3 come from props/C11/params.json, which `pre` regenerates
 from the Rust configuration through the harness op `params` (so a changed constant in /repo is seen
-by the model as what the code really uses, and a wrong constant shows up as a wrong sqrt)."""
+by the model as what the code really uses; `precomp_ok` makes the model re-check every premise on them and, for
+prime fields, recompute (p+1)/4, two-adicity, trace, root of unity from the modulus by the limb-level model
+coq/C11/ConstModel.v and compare with the live constants the harness prints)."""
 import sys, os, json
 sys.path.insert(0, '/verif/lib')
 
@@ -19,6 +21,25 @@ SHIPPED_FP = {10001: 'bls12_381.Fq', 10002: 'bls12_381.Fr', 10003: 'bn254.Fq', 1
               10005: 'secp256k1.Fq', 10006: 'ed25519.Fq', 10007: 'bls12_377.Fr', 10008: 'bls12_377.Fq',
               10009: 'pallas.Fq', 10010: 'mnt6_298.Fq', 10011: 'test.mnt6_753.Fq', 10012: 'test.bls12_381.Fq',
               10013: 'test.secp256k1.Fq', 10014: 'secp256k1.Fr', 10015: 'vesta.Fq', 10016: 'ed_on_bn254.Fq'}
+# prime fields DERIVED in the harness (#[derive(MontConfig)]) with adversarial limb patterns: id -> (name, modulus).
+# They exercise the compile-time constant computation (const_add_with_carry / divide_by_2_round_down / two_adic_*):
+_M = (1 << 64) - 1
+DERIVED_FP = {
+    11001: ('p521', 2**521 - 1),                                  # N=9, 3 mod 4, every limb all ones
+    11002: ('ed448', 2**448 - 2**224 - 1),                        # N=7, 3 mod 4, low 3 limbs all ones, no spare bit
+    11003: ('m127', 2**127 - 1),                                  # N=2, low limb all ones
+    11004: ('c25519', 2**255 - 19),                               # 5 mod 8: Tonelli-Shanks with two-adicity 2
+    11005: ('p192', 2**192 - 2**64 - 1),                          # N=3, limbs ff..ff, ff..fe, ff..ff; no spare bit
+    11006: ('p384', 2**384 - 2**128 - 2**96 + 2**32 - 1),         # N=6, no spare bit
+    11007: ('p256', 2**256 - 2**224 + 2**192 + 2**96 - 1),        # N=4, low limb all ones, no spare bit
+    11008: ('goldilocks', 2**64 - 2**32 + 1),                     # N=1, two-adicity 32, no spare bit
+    11009: ('stark252', 2**251 + 17 * 2**192 + 1),                # two-adicity 192 (> 64: spans three limbs)
+    11010: ('ta66', (2**64 - 28) * 2**64 + 1),                    # N=2, two-adicity 66, no spare bit
+    11011: ('low1', (0x39fbbc55f6fa5db8 << 64) | _M),             # 3 mod 4, low limb all ones, non-trivial next limb
+    11012: ('low2', (0x39526095d64be5f0 << 128) | (_M << 64) | _M),   # 3 mod 4, two low limbs all ones
+    11013: ('low1top', (_M << 128) | (0xe7b4b57e83cb86df << 64) | _M),  # all ones / random / all ones, no spare bit
+    11014: ('low3', (0xc63009a840cab34 << 192) | (_M << 128) | (_M << 64) | _M),  # three low limbs all ones
+}
 SHIPPED_FP2 = {12001: 'bls12_381.Fq2', 12002: 'bn254.Fq2', 12003: 'bls12_377.Fq2', 12004: 'test.bls12_381.Fq2'}
 SHIPPED_FP3 = {13001: 'mnt6_298.Fq3', 13002: 'test.mnt6_753.Fq3'}
 SW_CURVES = {20001: 'bls12_381.g1', 20002: 'bls12_381.g2', 20003: 'secp256k1', 20004: 'mnt6_298.g1',
@@ -31,7 +52,7 @@ TE_CURVES = {30001: 'ed25519', 30002: 'jubjub', 30003: 'bandersnatch', 30004: 'e
 
 def all_cfgs():
     ids = list(TOY_PRIMES) + [2000 + p for p in TOY_FP2] + [3000 + p for p in TOY_FP3]
-    ids += list(SHIPPED_FP) + list(SHIPPED_FP2) + list(SHIPPED_FP3) + list(SW_CURVES) + list(TE_CURVES)
+    ids += list(SHIPPED_FP) + list(DERIVED_FP) + list(SHIPPED_FP2) + list(SHIPPED_FP3) + list(SW_CURVES) + list(TE_CURVES)
     return ids
 
 
@@ -217,8 +238,8 @@ def gen(rng, tier):
 
     # ---------------- constants of every compiled field configuration satisfy the theorems' premises
     for cfg in TOY_PRIMES + [2000 + p for p in TOY_FP2] + [3000 + p for p in TOY_FP3] + \
-            list(SHIPPED_FP) + list(SHIPPED_FP2) + list(SHIPPED_FP3):
-        yield 'precomp_ok', fargs(cfg), 'constants/%s' % ('toy' if cfg < 10000 else 'shipped')
+            list(SHIPPED_FP) + list(DERIVED_FP) + list(SHIPPED_FP2) + list(SHIPPED_FP3):
+        yield 'precomp_ok', fargs(cfg), 'constants/%s' % ('toy' if cfg < 10000 else 'derived' if cfg in DERIVED_FP else 'shipped')
 
     # ---------------- toy prime fields: EXHAUSTIVE, two-adicity 1..8
     # branches: Case3Mod4 (p = 3 mod 4), TonelliShanks (zero shortcut; b == 1 at entry; inner search;
@@ -281,6 +302,23 @@ def gen(rng, tier):
             yield 'sqrt', fargs(cfg) + [x], 'shipped/%s/%s' % (name, c)
             yield 'legendre', fargs(cfg) + [x], 'shipped/%s/%s' % (name, c)
 
+    # ---------------- derived prime fields with adversarial limb patterns (all-ones limbs, no spare bit,
+    # two-adicity 2 / 32 / 66 / 192): the configured SQRT_PRECOMP, plus explicit precomputations built from the modulus
+    # here (Case3Mod4 with (p+1)/4, Tonelli-Shanks with two-adicity 1 on p = 3 mod 4)
+    nder = 300 if thorough else 12
+    for cfg, (name, p) in DERIVED_FP.items():
+        assert P[cfg][0] == [1, p], 'params.json does not match DERIVED_FP[%d]' % cfg
+        F = Fld(P[cfg][0])
+        s, t = F.two_adic()
+        g = P[cfg][2][0]
+        for x, c in structured(F, rng, nder):
+            yield 'sqrt', fargs(cfg) + [x], 'derived/%s/%s' % (name, c)
+            yield 'legendre', fargs(cfg) + [x], 'derived/%s/%s' % (name, c)
+        for x, c in structured(F, rng, max(2, nder // 4)):
+            yield 'sqrt_with', [[cfg], P[cfg][0], [2, s, pow(g, t, p), (t - 1) // 2], []] + [x], 'derived/%s/explicit_ts/%s' % (name, c)
+            if p % 4 == 3:
+                yield 'sqrt_with', [[cfg], P[cfg][0], [1, (p + 1) // 4], []] + [x], 'derived/%s/explicit_3mod4/%s' % (name, c)
+
     # ---------------- curve coordinate recovery
     # get_ys_from_x_unchecked: COEFF_A == 0 shortcut / a != 0; sqrt None; y < -y true/false; y = 0
     # get_xs_from_y_unchecked: denominator == 0 -> None; sqrt None; x <= -x true/false; x = 0 (y = +-1)
@@ -312,14 +350,17 @@ def nontrivial(case, out):
 
 
 RULE = ('exhaustive enumeration of every element of toy prime fields (p = 5..769, two-adicity 1..8), toy Fp2 (p^2 elements) '
-        'and toy Fp3 (p^3 elements), toy curves over them; shipped fields/curves: 0, 1, -1, small/boundary base elements, '
+        'and toy Fp3 (p^3 elements), toy curves over them; 14 derived prime fields with adversarial limb patterns (2^521-1, '
+        '2^448-2^224-1, 2^127-1, 2^255-19, P-192/256/384, Goldilocks, two-adicity 66 and 192, all-ones low limbs) and '
+        'shipped fields/curves: 0, 1, -1, small/boundary base elements, '
         'tower non-residue, base-field elements embedded in extensions, elements of exact 2-power order z^(2^j), elements with '
         'prescribed 2-part, squares of random elements, random non-residues, random; non-trivial = last operand non-zero; '
         'distinct = distinct case lines')
 XCHECK = {'quick': 400, 'thorough': 2000}
 HYPOTHESES = ['field_theory + Leibniz eqb for the carrier (proved for GF(13), GF(7) in C11/SmallFields.v)', 'fermat: x <> 0 -> x^(2^s (2 tm+1)) = 1 (resp. x^(4m-2) = 1): Fermat little theorem for the field', 'z_order: z^(2^(s-1)) = -1', 'nr_nonsquare: the tower non-residue is not a square of the base field', 'two_inv_spec: 2 * two_inv = 1', 'ltb_asym: the order used by Ord is asymmetric']
 TRUSTED = ['constants of each configuration are read from the Rust code by the harness op `params` (props/C11/params.json) '
-           'and handed to the model as case arguments: the model is parametric in them',
+           'and handed to the model as case arguments: the model is parametric in them; for prime fields `precomp_ok` '
+           'additionally compares the live constants with what the limb-level model computes from the modulus and GENERATOR',
            'Field::pow, field multiplication/inversion and Ord are modelled at value level (Base.Field dictionaries); '
            'their limb-level correctness belongs to C01/C02']
 ASSUMPTIONS = ['harness built with debug assertions and overflow checks (profile dev): debug_assert!/usize underflow are panics',
